@@ -179,7 +179,7 @@ class PipeCase:
             self.workdir = None
 
     def symbols(self):
-        return collect_syms([self.config, self.start, self.end, self.fill])
+        return collect_syms([self.config, self.start, self.end, self.fill, [p for p in self.predefined if isinstance(p, tuple)]])
 
     # ---- symbolic run ----
     def run_symbolic(self, ctx: E.Ctx) -> Outcome:
@@ -197,6 +197,7 @@ class PipeCase:
         for name, s in sorted(self.symbols().items()):
             mk(s)
         shims.set_config_provider(lambda: _wrap_numbers(materialize(self.config, mk)))
+        shims.set_condition_symbols({p[0]: mk(p[1]) for p in self.predefined if isinstance(p, tuple)})
         start = materialize(self.start, mk)
         end = materialize(self.end, mk)
         fill = materialize(self.fill, mk)
@@ -208,7 +209,8 @@ class PipeCase:
                 os.path.join(self.workdir, self.main), os.path.join(self.workdir, 'isa.yaml'),
                 self.binary, out_path, start, end, fill,
                 self.pretty is not None, self.pretty or 'listing', 'stdout', 0,
-                [os.path.join(self.workdir, d) for d in self.include_dirs], list(self.predefined),
+                [os.path.join(self.workdir, d) for d in self.include_dirs],
+                [p for p in self.predefined if not isinstance(p, tuple)],
             )
             asm.assemble_bytecode()
         except SystemExit as e:
@@ -237,6 +239,15 @@ class PipeCase:
     def concrete_config(self, model: dict) -> dict:
         return materialize(self.config, lambda s: model.get(s.name, s.lo if s.lo is not None else 0))
 
+    def concrete_predefined(self, model: dict):
+        out = []
+        for p in self.predefined:
+            if isinstance(p, tuple):
+                out.append(f'{p[0]}={model.get(p[1].name, p[1].lo or 0)}')
+            else:
+                out.append(p)
+        return out
+
     def write_concrete(self, model: dict, dest: str):
         import yaml
         os.makedirs(dest, exist_ok=True)
@@ -258,7 +269,7 @@ class PipeCase:
             cmd += ['-p', '-t', self.pretty]
         for d in self.include_dirs:
             cmd += ['-I', d]
-        for d in self.predefined:
+        for d in self.concrete_predefined(model):
             cmd += ['-D', d]
         with builtins.open(os.path.join(dest, 'cmd.txt'), 'w') as f:
             f.write('cd ' + dest + ' && PYTHONPATH=/repo/src /venv/bin/python ' + ' '.join(cmd) + '\n')
